@@ -29,7 +29,7 @@ def oracle_spec(mag=False):
                            expr.Ev(PROCS["D"][3], [expr.Tr("D", origin="Z", magnitude=mg("D"))])])
 
 
-def build_variant(order, routes, incremental, decl, mag=False):
+def build_variant(order, routes, incremental, decl, mag=False, after_each=None):
     """returns (model, list of process names in event order or None if some process went the ode route)"""
     from pygom import SimulateOde, Transition, Event
     if decl == "list":
@@ -89,11 +89,16 @@ def build_variant(order, routes, incremental, decl, mag=False):
                 adders.append(("add_ode", ob, None))
     if incremental:
         m = SimulateOde(state=st, param=pr)
+        if after_each is not None:
+            from pygom.model import ode_utils as _ou
+            m._SC = _ou.compileCode(backend="lambda")
         ev_order = []
         for meth, obj, p in adders:
             getattr(m, meth)(obj)
             if p is not None:
                 ev_order.append(p)
+            if after_each is not None:
+                after_each(m)        # the user looks at the model between two incremental steps
     else:
         m = SimulateOde(state=st, param=pr, event=ev or None, transition=tr or None, birth_death=bd or None, ode=od or None)
         # constructor order: events, then legacy transitions, then births/deaths
@@ -119,8 +124,17 @@ def variant_unit(variants, idx, mag=False):
         J_ref = [[expr.ev(expr.d(e, s), env) for s in STATES] for e in spec.rhs()]
         rate_ref = {"T": expr.ev(PROCS["T"][3], env), "B": expr.ev(PROCS["B"][3], env), "D": expr.ev(PROCS["D"][3], env)}
         for order, routes, inc, decl in variants:
-            label = "[%sorder=%s routes=%s %s decl=%s]" % ("non-unit magnitudes " if mag else "", "".join(order), ",".join("%s:%s" % (p, routes[p]) for p in "TBD"), "incremental" if inc else "constructor", decl)
-            m, ev_order = build_variant(order, routes, inc, decl, mag)
+            label = "[%sorder=%s routes=%s %s decl=%s]" % ("non-unit magnitudes " if mag else "", "".join(order), ",".join("%s:%s" % (p, routes[p]) for p in "TBD"), ("incremental, evaluated after every step" if inc == "eval" else "incremental") if inc else "constructor", decl)
+            if inc == "eval":
+                def look(mm):
+                    mm.parameters = th
+                    mm.ode(x, env["t"])
+                    mm.jacobian(x, env["t"])
+                    if mm.num_events:
+                        mm.eventRateVector(x, env["t"])
+                m, ev_order = build_variant(order, routes, True, decl, mag, after_each=look)
+            else:
+                m, ev_order = build_variant(order, routes, inc, decl, mag)
             c.prove([str(s) for s in m.state_list] == STATES and [str(p) for p in m.param_list] == PARAMS, "%s declarations parsed to the same state/parameter lists" % label)
             m.parameters = th
             eq = m.get_ode_eqn()
@@ -141,7 +155,7 @@ def all_variants(routes_table=None):
     for order in itertools.permutations("TBD"):
         for rt in itertools.product(routes_table["T"], routes_table["B"], routes_table["D"]):
             routes = dict(zip("TBD", rt))
-            for inc in (False, True):
+            for inc in (False, True, "eval"):
                 for decl in DECLS:
                     out.append((order, routes, inc, decl))
     return out
